@@ -27,6 +27,8 @@ CONSTANTS CHMOD,        \* 2^(width of CurrHF); writes to the field truncate (co
           FIXWRAP,      \* TRUE: advance refuses to move CurrHF beyond the field; FALSE: pinned
           FIXHOPS,      \* TRUE: the encoder refuses more hop fields than CurrHF can address; FALSE: pinned
           FIXOHEXP,     \* TRUE: one-hop expiry saturates; FALSE: pinned (plain addition)
+          FIXOHSEC,     \* TRUE: OneHopPath::set_second_hop copies ExpTime from the first hop like the view
+                        \*       (and SCION routers) do; FALSE: pinned (model writes ExpTime 0)
           XorAcc(_, _)  \* accumulator step
 
 MAXSEGHOPS == 63
@@ -152,6 +154,14 @@ OneHopExpiry(o) ==
   LET d == Dur(IF o.h1.exp <= o.h2.exp THEN o.h1.exp ELSE o.h2.exp) IN
   IF o.inf.ts + d > U32CAP THEN (IF FIXOHEXP THEN [ok |-> TRUE, v |-> U32CAP] ELSE [ok |-> FALSE, v |-> 0])
   ELSE [ok |-> TRUE, v |-> o.inf.ts + d]
+\* set_second_hop(ingress, key, segment_id_was_advanced): the receiving router fills the second hop
+\* field; its MAC is taken over the accumulator AFTER the first hop (symbolic MAC record)
+OneHopSecond(o, ifin, key, adv, exp) ==
+  [id |-> 2, exp |-> exp, in |-> ifin, eg |-> 0, ai |-> FALSE, ae |-> FALSE,
+   mac |-> <<"mac", key, IF adv THEN o.inf.sid ELSE XorAcc(o.inf.sid, o.h1.mac), o.inf.ts, exp, ifin, 0>>]
+OneHopSetSecondView(o, ifin, key, adv) == [o EXCEPT !.h2 = OneHopSecond(o, ifin, key, adv, o.h1.exp)]
+OneHopSetSecondModel(o, ifin, key, adv) ==
+  [o EXCEPT !.h2 = OneHopSecond(o, ifin, key, adv, IF FIXOHSEC THEN o.h1.exp ELSE 0)]
 OneHopFirstEgress(o) == TravelEg(o.h1, o.inf)
 OneHopLastIngress(o) == TravelIn(o.h2, o.inf)
 
